@@ -13,8 +13,9 @@ PROP = "C18"
 FAIL_OVERRIDE = {"varintDictBuild": -1, "varintDictGetStats": -1}
 # failure edges that continue with a *correct* result - each confirmed by reading (DESIGN App. C.1)
 CONFIRMED_FALLBACKS = {
-    ("varintAdaptiveCountUnique", "malloc#1"): "sampling buffer: on failure the function returns count-1 ('not all unique'), which can never satisfy the selector's BITMAP guard uniqueCount == count (C06-A3); every other selectable codec is lossless whatever the estimate",
-    ("varintAdaptiveCountUnique", "malloc#2"): "sort buffer: same as malloc#1",
+    # any scratch buffer of this function (today: the sampling buffer and the sort buffer), however it is allocated: the rule below checks
+    # what matters, namely that the value returned on the failure edge is not `count`
+    ("varintAdaptiveCountUnique", "*"): "scratch buffers: on failure the function returns count-1 ('not all unique'), which can never satisfy the selector's BITMAP guard uniqueCount == count (C06-A3); every other selectable codec is lossless whatever the estimate",
     ("varintBitmapAddRange", "malloc#1"): "single-run shortcut: on failure nothing has been modified and the function falls through to element-wise insertion, which yields the same set",
     ("varintBitmapRemove", "bitmapToArray_#1"): "failed shrink BITMAP->ARRAY: the element has already been removed from the bitmap container, which stays valid; returning true is correct",
 }
@@ -55,6 +56,7 @@ def analyse(mod, run, label, fallbacks=CONFIRMED_FALLBACKS, overrides=FAIL_OVERR
                     return (fa.is_alias(s, v) or fa.is_alias(s, vv)) and fv == 0 and fn.d["ret"].endswith("*")
                 bad = [(t, v) for (t, v, p) in ex if not reports_failure(v)]
                 key = (fn.name, s.name())
+                if key not in fallbacks and (fn.name, "*") in fallbacks: key = (fn.name, "*")
                 if bad and key in fallbacks:
                     run.ok("R2-failure-reported", {"fn": fn.name, "site": s.name(), "at": where, "confirmed_fallback": fallbacks[key]})
                     fallback = True
